@@ -2198,6 +2198,13 @@ pub fn check_c20(ix: &Ix<'_>, v: &mut Vec<Violation>) {
             if let (Some(t), Some(_)) = (t_eff, session_ms) {
                 // every silence longer than the timeout (plus slack) must have ended the connection
                 let mut pts = arrivals.clone();
+                if out.plan.cfg.frame_read_rate.is_some() {
+                    // with a frame read rate configured the first byte of a frame hands the connection's timer
+                    // over to the read-rate regime: a fragment that arrives before the keep-alive timer fired
+                    // starts a new waiting period (which then ends with a read timeout)
+                    pts.extend(ix.sent.iter().filter(|s| s.conn == conn && s.pkt.is_none()).filter_map(|s| s.delivered.map(t_of)));
+                    pts.sort_unstable();
+                }
                 pts.push(end_ms);
                 for w in pts.windows(2) {
                     // while a handler is busy the service is not ready, reading is paused and the timers are
